@@ -3,8 +3,9 @@
    Model/Waveform.v is the hand-written model of py4hw.logic.simulation.Waveform (tied to the real class by
    py/props/c15.py on every run); Spec/C15.v holds the independent reader `decode`, the reference watch-list
    normalisation `first_occ`, the reference history `hist` and the pre-edge values `samples_of`. *)
+From V Require Import Model.Trace Proofs.C06.Range.     (* C06's op / run_op; before Spec.C15: `fits` below is Spec.C15.fits *)
 From V Require Import Base.Bits Model.SimKernel Model.Waveform Spec.C15.
-From V Require Import Proofs.C15.Digits Proofs.C15.Row Proofs.C15.Watch Proofs.C15.Kernel Proofs.C15.Wavedrom Proofs.C15.EndToEnd Proofs.C15.History Proofs.C15.Main.
+From V Require Import Proofs.C15.Digits Proofs.C15.Row Proofs.C15.Watch Proofs.C15.Kernel Proofs.C15.Wavedrom Proofs.C15.EndToEnd Proofs.C15.History Proofs.C15.Main Proofs.C15.Powerup.
 
 
 (* ---- watch list: ports stand for their wire, repeated entries are merged by wire identity, order of
@@ -157,6 +158,80 @@ Theorem C15_end_to_end :
           /\ length (fst rw) = (n + 2)%nat).
 Proof. intros St getR setR Hgs d k entries n s r0 Hleaf. exact (end_to_end getR setR Hgs d k entries Hleaf n s). Qed.
 
+(* ---- composition with C06 (added in session 5): the range hypothesis of C15_end_to_end is discharged by C06's
+   invariant.  s is ANY state reached from Simulator construction by a list of C06 operations (clk(n) / external pokes /
+   propagateAll, Proofs/C06/Range.v `op`, the list C06_invariant quantifies over), for ANY design with arbitrary leaf
+   functions; the only condition on the design is C06's (declared widths are not negative).  A recorder that is
+   fresh at s, clk(n), get_wavedrom: every row reads back as the n values the entry's wire carried going into each
+   edge.  No range assumption. *)
+Theorem C15_end_to_end_from_powerup :
+  forall (St : Type) (getR : St -> dict) (setR : St -> dict -> St),
+    (forall st dd, getR (setR st dd) = dd) ->
+  forall (d : design St) (k : nat) entries (st0 : list St) (ops : list op) (n : nat),
+    let r0 := wf_init (widths d) entries in
+    let s := fold_left (run_op d) ops (init d st0) in
+    Forall (fun w => 0 <= w) (widths d) ->
+    nth_error (seqs d) k = Some (recorder_leaf getR setR (wf_uniq r0)) ->
+    listed_once d k -> ungated d k -> entries <> [] ->
+    recS getR k s = Some (wf_getDict r0) ->
+    exists dd', recS getR k (clk d n s) = Some dd' /\
+      (let r' := {| wf_wires := wf_wires r0; wf_format := wf_format r0; wf_uniq := wf_uniq r0; wf_data := dd' |} in
+      decode_clock (fst (wf_wavedrom (widths d) r')) = Some n /\
+      length (snd (wf_wavedrom (widths d) r')) = length entries /\
+      forall i e, nth_error entries i = Some e ->
+        exists rw, nth_error (snd (wf_wavedrom (widths d) r')) i = Some rw
+          /\ dict_get dd' (entry_wire e) = Some (samples_of d (propagated d s) (entry_wire e) n)
+          /\ decode (nth (entry_wire e) (widths d) 0) rw = Some (samples_of d (propagated d s) (entry_wire e) n)
+          /\ length (fst rw) = (n + 2)%nat).
+Proof. exact end_to_end_from_powerup_thm. Qed.
+
+(* the same when leaves put values on wires from their constructors (C06_invariant_constructor_puts) *)
+Theorem C15_end_to_end_from_powerup_constructor_puts :
+  forall (St : Type) (getR : St -> dict) (setR : St -> dict -> St),
+    (forall st dd, getR (setR st dd) = dd) ->
+  forall (d : design St) (k : nat) entries (st0 : list St) (pokes : list (nat * Z)) (ops : list op) (n : nat),
+    let r0 := wf_init (widths d) entries in
+    let s := fold_left (run_op d) ops (init_poked d st0 pokes) in
+    Forall (fun w => 0 <= w) (widths d) ->
+    nth_error (seqs d) k = Some (recorder_leaf getR setR (wf_uniq r0)) ->
+    listed_once d k -> ungated d k -> entries <> [] ->
+    recS getR k s = Some (wf_getDict r0) ->
+    exists dd', recS getR k (clk d n s) = Some dd' /\
+      (let r' := {| wf_wires := wf_wires r0; wf_format := wf_format r0; wf_uniq := wf_uniq r0; wf_data := dd' |} in
+      decode_clock (fst (wf_wavedrom (widths d) r')) = Some n /\
+      length (snd (wf_wavedrom (widths d) r')) = length entries /\
+      forall i e, nth_error entries i = Some e ->
+        exists rw, nth_error (snd (wf_wavedrom (widths d) r')) i = Some rw
+          /\ dict_get dd' (entry_wire e) = Some (samples_of d (propagated d s) (entry_wire e) n)
+          /\ decode (nth (entry_wire e) (widths d) 0) rw = Some (samples_of d (propagated d s) (entry_wire e) n)
+          /\ length (fst rw) = (n + 2)%nat).
+Proof. exact end_to_end_from_powerup_constructor_puts_thm. Qed.
+
+(* ... and over a whole recorder history: a recorder that is fresh at power-up (constructor puts allowed), then ANY
+   list of pokes / clk(n) / clear() (History.kop; clk(0) = propagateAll): get_wavedrom of the final recording has a
+   clock row of kcount cycles (those since the last clear()) and every row reads back as the reference list kexp of
+   C15_kernel_history.  No range assumption: every value recorded anywhere in the history is inside its width by C06 *)
+Theorem C15_history_end_to_end_from_powerup :
+  forall (St : Type) (getR : St -> dict) (setR : St -> dict -> St),
+    (forall st dd, getR (setR st dd) = dd) ->
+  forall (d : design St) (k : nat) entries (st0 : list St) (pokes : list (nat * Z)) (ops : list kop),
+    let r0 := wf_init (widths d) entries in
+    let s0 := init_poked d st0 pokes in
+    Forall (fun w => 0 <= w) (widths d) ->
+    nth_error (seqs d) k = Some (recorder_leaf getR setR (wf_uniq r0)) ->
+    listed_once d k -> ungated d k -> entries <> [] ->
+    recS getR k s0 = Some (wf_getDict r0) ->
+    exists dd', recS getR k (fold_left (krun getR setR d k) ops s0) = Some dd' /\
+      (let r' := {| wf_wires := wf_wires r0; wf_format := wf_format r0; wf_uniq := wf_uniq r0; wf_data := dd' |} in
+      decode_clock (fst (wf_wavedrom (widths d) r')) = Some (kcount 0 ops) /\
+      length (snd (wf_wavedrom (widths d) r')) = length entries /\
+      forall i e, nth_error entries i = Some e ->
+        exists rw, nth_error (snd (wf_wavedrom (widths d) r')) i = Some rw
+          /\ dict_get dd' (entry_wire e) = Some (kexp getR setR d k (entry_wire e) [] s0 ops)
+          /\ decode (nth (entry_wire e) (widths d) 0) rw = Some (kexp getR setR d k (entry_wire e) [] s0 ops)
+          /\ length (fst rw) = (kcount 0 ops + 2)%nat).
+Proof. exact history_end_to_end_from_powerup_thm. Qed.
+
 (* non-vacuity of the guarded statements: a concrete recorder in a concrete design *)
 Example C15_nonvacuous :
   let ws := [8; 1; 8] in
@@ -193,6 +268,25 @@ Example C15_kernel_nonvacuous :
   recS getR_sum 1 (clk dg 2 (poke dg (clk dg 3 (poke dg (init dg st0) 0 77)) 2 1)) = Some [(1%nat, [77; 77]); (0%nat, [77; 77])].
 Proof. exact thm_C15_kernel_nonvacuous. Qed.
 
+(* non-vacuity of the *_from_powerup theorems: the register + recorder design above (register constructor showing 5
+   on q); the recorder is still fresh after pokes / propagateAll / clk(0) from power-up, the user pokes 300 into an
+   8-bit wire (C06: stored as 44), and a history with a clear() in the middle leaves 3 samples per wire *)
+Example C15_powerup_nonvacuous :
+  (forall (st : Z + dict) dd, getR_sum (setR_sum st dd) = dd) /\
+  Forall (fun w => 0 <= w) (widths pu_d) /\
+  nth_error (seqs pu_d) 1 = Some (recorder_leaf getR_sum setR_sum (wf_uniq (wf_init (widths pu_d) pu_entries))) /\
+  listed_once pu_d 1 /\ ungated pu_d 1 /\ pu_entries <> [] /\
+  recS getR_sum 1 (fold_left (run_op pu_d) [OpPoke 0%nat 300; OpPropagate; OpClk 0] (init pu_d pu_st0))
+    = Some (wf_getDict (wf_init (widths pu_d) pu_entries)) /\
+  recS getR_sum 1 (fold_left (run_op pu_d) [OpPoke 0%nat 300; OpPropagate; OpClk 0] (init_poked pu_d pu_st0 [(1%nat, 5)]))
+    = Some (wf_getDict (wf_init (widths pu_d) pu_entries)) /\
+  recS getR_sum 1 (init_poked pu_d pu_st0 [(1%nat, 5)]) = Some (wf_getDict (wf_init (widths pu_d) pu_entries)) /\
+  recS getR_sum 1 (fold_left (krun getR_sum setR_sum pu_d 1) [KClk 2; KClear; KPoke 0 300; KClk 3]
+                             (init_poked pu_d pu_st0 [(1%nat, 5)]))
+    = Some [(1%nat, [0; 44; 44]); (0%nat, [44; 44; 44])] /\
+  kcount 0 [KClk 2; KClear; KPoke 0 300; KClk 3] = 3%nat.
+Proof. exact pu_hyps. Qed.
+
 Print Assumptions C15_watchlist.
 Print Assumptions C15_history.
 Print Assumptions C15_one_sample_per_cycle.
@@ -207,3 +301,6 @@ Print Assumptions C15_clear.
 Print Assumptions C15_end_to_end.
 Print Assumptions C15_kernel_history.
 Print Assumptions C15_rendering_injective.
+Print Assumptions C15_end_to_end_from_powerup.
+Print Assumptions C15_end_to_end_from_powerup_constructor_puts.
+Print Assumptions C15_history_end_to_end_from_powerup.
